@@ -66,8 +66,8 @@ def run(F, S, R, tier):
             R.bad("paired/orphan/remove/three-maps", "remove_blocks_by_parent does not remove from all of blocks/parents/leaders (%s)" % {k: sorted(v) for k, v in fwr.items()}, [rm.where()])
         K.loop_over_all(R, "loop/orphan/remove/parents", rm, r"HashMap::<.*>::remove$", [r"call:.*unzip$|call:.*pop_front$"], what="every released hash leaves the parents map") if False else None
         ext = [c for c in rm.calls_to(r"Extend::extend$")]
-        q = [c for c in ext if K.src_match(rm.operand_sources(c.args[0]), [r"var:queue"])]
-        rmd = [c for c in ext if K.src_match(rm.operand_sources(c.args[0]), [r"var:removed"])]
+        q = [c for c in ext if K.src_match(rm.operand_sources(c.args[0]), [r"vty:alloc::collections::vec_deque::VecDeque<.*Byte32>$"])]
+        rmd = [c for c in ext if K.src_match(rm.operand_sources(c.args[0]), [r"vty:alloc::vec::Vec<.*LonelyBlockHash>$"])]
         if q and rmd and K.src_match(rm.operand_sources(q[0].args[1]), [r"call:.*unzip$", r"idx:#0"]) and K.src_match(rm.operand_sources(rmd[0].args[1]), [r"call:.*unzip$", r"idx:#1"]):
             R.ok("prov/orphan/remove/bfs", "released hashes are queued for their own children (all descendants are released); released blocks are all returned", [q[0].where()])
         else:
@@ -120,8 +120,8 @@ def run(F, S, R, tier):
         fw = fields_written(rp, "InflightBlocks")
         cl = [b for b in K.with_nested(rp) if b.kind == "Closure"]
         rmc = [(b, c) for b in cl for c in b.calls if K.rx(r"(BTreeMap|HashMap)::<.*>::remove$").search(c.callee)]
-        has_state = any(K.src_match(b.operand_sources(c.args[0]), [r"upvar:state"]) for b, c in rmc)
-        has_trace = any(K.src_match(b.operand_sources(c.args[0]), [r"upvar:trace"]) for b, c in rmc)
+        has_state = any(K.src_match(b.operand_sources(c.args[0]), [r"vty:&mut alloc::collections::btree::map::BTreeMap<.*BlockNumberAndHash, types::InflightState>$"]) for b, c in rmc)
+        has_trace = any(K.src_match(b.operand_sources(c.args[0]), [r"vty:&mut std::collections::hash::map::HashMap<.*BlockNumberAndHash, u64>$"]) for b, c in rmc)
         calls = sorted(c.callee.split("::")[-1] for b, c in rmc)
         if "remove" in fw.get("download_schedulers", set()) and has_state and has_trace:
             R.ok("paired/inflight/remove-by-peer", "a leaving peer's scheduler, its blocks' states and their trace entries are all released", [rp.where()])
@@ -161,7 +161,7 @@ def run(F, S, R, tier):
                     R.ok("mustcall/inflight/timeout-release", "every timed-out request is queued for release whatever the state of its peer's scheduler", [site.where()])
         rk = [c for c in pr.calls_to(r"BTreeMap::<.*>::remove$")]
         if rk:
-            K.loop_over_all(R, "loop/inflight/timeout-release", pr, r"BTreeMap::<.*>::remove$", [r"var:remove_key"], what="every queued key is removed from the state map")
+            K.loop_over_all(R, "loop/inflight/timeout-release", pr, r"BTreeMap::<.*>::remove$", [r"vty:alloc::vec::Vec<ckb_types::block_number_and_hash::BlockNumberAndHash>$"], what="every queued key is removed from the state map")
     R.guard("paired/inflight", inflight)
 
     # ---------------------------------------------------------------- 3. header map
@@ -182,7 +182,7 @@ def run(F, S, R, tier):
                 R.bad("order/spill", "memory eviction is not preceded by the backend write: a concurrent reader could miss the header", [lm.where()])
             a = ib[0][0].operand_sources(ib[0][1].args[1])
             r_ = rb[0][0].operand_sources(rb[0][1].args[1])
-            if K.src_match(a, [r"call:.*MemoryMap::front_n$|upvar:values"]) and K.src_match(r_, [r"call:.*MemoryMap::front_n$"]):
+            if K.src_match(a, [r"call:.*MemoryMap::front_n$"]) and K.src_match(r_, [r"call:.*MemoryMap::front_n$"]):
                 R.ok("prov/spill/same-values", "exactly the spilled values are evicted", [rb[0][1].where()])
             else:
                 R.bad("prov/spill/same-values", "the evicted keys are not the spilled values", [lm.where()])
